@@ -54,8 +54,20 @@ def generate(rng, tier):
     env["tree"] = tree
     nested = scen.subroots_of(tree, rng, 2) if rng.random() < 0.45 else []
     nested = [n for n in nested if not n.startswith("cache")]
+    if rng.random() < 0.12:
+        # a chain of four histories, sealed bottom-up: root > A > A/B > A/B/C
+        for d, f in (("A", "A/a.bin"), ("A/B", "A/B/b.bin"), ("A/B/C", "A/B/C/c1.bin"), ("A/B/C", "A/B/C/c2.bin")):
+            tree.setdefault(d, {"t": "d"})
+            tree.setdefault(f, {"t": "f", "c": gen.unique_content(rng)})
+        tree.setdefault("A/B/C/E", {"t": "d"})
+        env["tree"] = tree
+        nested = sorted(set(nested) | {"A/B/C", "A/B", "A"}, key=lambda x: -x.count("/"))
     ops, info = scen.gen_history_ops(rng, tree, n_gens=rng.randint(0, 3), nested=nested, p_sf=0.2, p_n=0.15, p_edit=0.3,
                                      edit_kinds=("add",), formats_hi=3)
+    if "A/B/C" in nested:
+        # bottom-up order for the chain
+        chain_ops = [scen.cmd("create", "@R/" + d, *gen.fmt_args(gen.pick_formats(rng, 1, 2))) for d in ("A/B/C", "A/B", "A")]
+        ops = chain_ops + [o for o in ops if not (scen.is_cmd(o) and o["argv"][1] in ("@R/A/B/C", "@R/A/B", "@R/A"))]
     final = ["create", "@R"] + gen.fmt_args(gen.pick_formats(rng, 1, 3))
     for p in pats:
         final += ["-i", p]
